@@ -2,9 +2,14 @@
 """write seeded/<id>/meta.json from the confirm log + a short description given on the command line
 usage: seedmeta.py <id> <property> <demo placement> <needs...> -- <what the change is>"""
 import sys, json, os, re
-sid, prop, place = sys.argv[1:4]
-rest = ' '.join(sys.argv[4:])
-needs, what = rest.split(' -- ', 1)
+if sys.argv[1] == '--refresh':
+    sid = sys.argv[2]
+    old = json.load(open('/verif/seeded/%s/meta.json' % sid))
+    prop, place, needs, what = old['breaks_property'], old['demonstration']['placement'], old['needs_to_manifest'], old['what']
+else:
+    sid, prop, place = sys.argv[1:4]
+    rest = ' '.join(sys.argv[4:])
+    needs, what = rest.split(' -- ', 1)
 d = '/verif/seeded/' + sid
 log = open(d + '/confirm.log').read()
 checks = {}
@@ -21,6 +26,7 @@ meta = {
  'what_i_ran': 'tools/seedcheck.sh: apply in scratch worktree, cargo build + full suite, demo with/without change; git -C /repo apply; ./check <prop> --tier quick; git -C /repo checkout -- .',
  'checks': checks,
  'detected': any(c['exit'] == 1 for c in checks.values()),
+ 'detected_only_after_strengthening': ('re-check after strengthening' in log) and any(c['exit'] == 1 for c in checks.values()),
 }
 json.dump(meta, open(d + '/meta.json', 'w'), indent=1)
 print(sid, 'detected' if meta['detected'] else 'MISSED', {k: v['violations'] for k, v in checks.items()})
